@@ -47,10 +47,24 @@
 //! leading partition columns into a listing prefix `col=<literal text>`; a directory that spells the same
 //! value differently (`month=01` for an INT column, `k=a%3Ab` written by Hive/Spark for 'a:b', raw `k=a~b`
 //! where object_store would encode `~`) is never listed, so `WHERE month = 1` returns nothing while
-//! `WHERE month < 2` returns the rows. `known_signature` excludes exactly the cases where an equality-like
-//! literal on a partition column meets a table file whose directory for that value is spelled differently
-//! from the prefix DataFusion lists (set `VERIF_C27_NO_EXCLUDE=1` to disable the exclusion, e.g. to verify
-//! the fix).
+//! `WHERE month < 2` returns the rows. `known_signature` is narrow: a case is excluded only when some table
+//! file carries, on a leading run of partition columns, values that the filter may pin to a single literal
+//! (model: `single_candidates` — every conjunct DataFusion may look at alone, through AND / OR / NOT, IN,
+//! BETWEEN x AND x, CAST-to-text equality, always-false atoms) so that the unchanged `evaluate_partition_prefix`
+//! may list `col=<literal>` for them (it stops at the first literal its own encode set changes), and one of
+//! those directories is spelled differently from the listed name (≈ 2.5 % of the cases; the first version
+//! excluded ≈ 10 %: any equality-like literal anywhere meeting any alternate spelling). Set
+//! `VERIF_C27_NO_EXCLUDE=1` to disable the exclusion, e.g. to verify the fix.
+//!
+//! Seeded defect /verif/seeded/C27-a (escaped literal *skipped* instead of ending the prefix, so `a = 'John Doe'
+//! AND b = 'x'` lists the non-existent `table/b=x`): missed by the first version — not because of the
+//! exclusion but because a conjunction of equalities on ≥ 2 leading partition columns with an escaped value in
+//! a non-last one that also matches a table file came up in < 1 of 480 cases. Generator changes (general, no
+//! special case): predicate leaf `EqFile(k, m)` = "the partition of file k on its first m columns" (weight 4 of
+//! 17 leaves), 10 more domain strings (15 of 36 need escaping), Utf8 partition columns 4:2:1, quick budget
+//! 480 → 1 200 cases; labels `eq-run:escaped-value-in-non-last-column`, `listing-prefix-columns=N`.
+//! `tools/mutrun /verif/seeded/C27-a/patch.diff -- ./check C27 quick` → VIOLATION after 60 cases, exit 1
+//! (probes/log-seeded-C27-a.txt); the unchanged tree exits 0 on seeds 0..4 and 41..43 (probes/log-seeds.txt).
 //!
 //! Sensitivity probes (tools/mutrun, patches in crates/vf-list/probes/, quick tier):
 //! A. helpers.rs `parse_partitions_for_path` without percent-decoding (probes/c25c27-pA-…diff) → VIOLATION after
@@ -59,8 +73,7 @@
 //!    (probes/c27-pD-…diff): first run stayed GREEN (453 cases) — literals met file values too rarely; the per-case
 //!    palette was added, re-probe → VIOLATION after 40 cases.
 //! E. datasource/url.rs `ListingTableUrl::contains`: `segments.count() <= 2` with ignore_subdirectory (env-guarded
-//!    in probes/combined-datasource-env-guarded.diff) — verdict in probes/log-all.txt (run still queued when this
-//!    header was written).
+//!    in probes/combined-datasource-env-guarded.diff) → VIOLATION after 18 cases (probes/log-all.txt).
 //! Repair check: fixes/C27-partition-prefix-single-spelling.diff + `VERIF_C27_NO_EXCLUDE=1` → exit 0, 480 cases,
 //! the regression case passes (probes/log-c27-fix.txt).
 use crate::util::*;
@@ -572,6 +585,11 @@ impl Case {
                 if neg { and(x, y) } else { or(x, y) }
             }
             Pred::Not(a) => self.forced(a, !neg),
+            // never true in either polarity (comparison with a NULL literal); partition columns are declared
+            // non-nullable, so the simplifier folds `p IS NULL` to false and `p IS NOT NULL` to true:
+            // "false" confines every column to the empty set
+            Pred::Cmp(_, _, None) => vec![Some(vec![]); n],
+            Pred::IsNull(ColRef::P(_), is_not) if *is_not == neg => vec![Some(vec![]); n],
             Pred::Cmp(c @ ColRef::P(i), op, Some(l)) if (*op == Op::Eq && !neg) || (*op == Op::Ne && neg) => {
                 out[col(i)] = Some(vec![self.lit(c, *l)]);
                 out
@@ -605,30 +623,74 @@ impl Case {
             _ => out,
         }
     }
-    /// The listing prefix the unchanged `evaluate_partition_prefix` builds for this case: the leading run of
-    /// partition columns confined to one literal, ended by the first literal DataFusion's encode set changes.
-    /// Returns (column, literal, directory name listed).
-    fn model_prefix(&self) -> Vec<(usize, V, String)> {
-        let Some(p) = &self.pred else { return vec![] };
-        let forced = self.forced(p, false);
-        let mut run = vec![];
-        for (c, f) in forced.iter().enumerate() {
-            match f {
-                Some(vs) if vs.len() == 1 => match df_prefix_spelling(&Self::pname(c), &vs[0]) {
-                    Some(dir) => run.push((c, vs[0].clone(), dir)),
-                    None => break,
-                },
-                _ => break,
+    /// Literals DataFusion may end up with as *the* single value of a partition column: it looks at the
+    /// partition-only conjuncts one by one, so every conjunct (and the conjunction) contributes what it confines
+    /// a column to, when that is exactly one literal.
+    fn single_candidates(&self, p: &Pred, neg: bool, out: &mut Vec<Vec<V>>) {
+        for (c, f) in self.forced(p, neg).into_iter().enumerate() {
+            if let Some(vs) = f {
+                if vs.len() == 1 && !out[c].contains(&vs[0]) {
+                    out[c].push(vs[0].clone());
+                }
             }
         }
-        run
+        match p {
+            Pred::And(a, b) if !neg => {
+                self.single_candidates(a, neg, out);
+                self.single_candidates(b, neg, out);
+            }
+            Pred::Or(a, b) if neg => {
+                self.single_candidates(a, neg, out);
+                self.single_candidates(b, neg, out);
+            }
+            Pred::Not(a) => self.single_candidates(a, !neg, out),
+            _ => {}
+        }
     }
-    /// a leading run of ≥ 2 single-literal columns in which a non-last literal needs escaping
+    fn candidates(&self) -> Vec<Vec<V>> {
+        let mut out = vec![vec![]; self.n()];
+        if let Some(p) = &self.pred {
+            self.single_candidates(p, false, &mut out);
+        }
+        out
+    }
+    /// Does the open defect `prefix-alternate-spelling` apply: some table file carries, on a leading run of
+    /// partition columns, values the filter may pin (so the unchanged `evaluate_partition_prefix` may list the
+    /// prefix made of them — it stops at the first literal its encode set changes), and one of these directories
+    /// is spelled differently from the name DataFusion lists.
+    fn alternate_spelling_under_prefix(&self) -> bool {
+        let cands = self.candidates();
+        if cands.iter().all(|c| c.is_empty()) {
+            return false;
+        }
+        for l in self.layout().iter().filter(|l| l.in_table) {
+            for c in 0..self.n() {
+                let Some(v) = l.values.get(c) else { break };
+                if !cands[c].contains(v) {
+                    break;
+                }
+                match df_prefix_spelling(&Self::pname(c), v) {
+                    None => break,
+                    Some(dir) => {
+                        if l.dirs.get(c) != Some(&dir) {
+                            return true;
+                        }
+                    }
+                }
+            }
+        }
+        false
+    }
+    /// length of the longest listing prefix the filter may produce (labels only)
+    fn model_prefix_len(&self) -> usize {
+        let cands = self.candidates();
+        (0..self.n()).take_while(|c| cands[*c].iter().any(|v| df_prefix_spelling("p", v).is_some())).count()
+    }
+    /// a leading run of ≥ 2 pinned columns in which a non-last literal needs escaping
     fn escaped_non_last_in_run(&self) -> bool {
-        let Some(p) = &self.pred else { return false };
-        let forced = self.forced(p, false);
-        let run: Vec<&V> = forced.iter().map_while(|f| match f { Some(vs) if vs.len() == 1 => Some(&vs[0]), _ => None }).collect();
-        run.len() >= 2 && run[..run.len() - 1].iter().any(|v| df_prefix_spelling("p", v).is_none())
+        let cands = self.candidates();
+        let run = (0..self.n()).take_while(|c| !cands[*c].is_empty()).count();
+        run >= 2 && (0..run - 1).any(|c| cands[c].iter().any(|v| df_prefix_spelling("p", v).is_none()))
     }
     fn query_sql(&self, table: &str) -> String {
         let n = self.n();
@@ -1142,7 +1204,7 @@ impl Property for C27 {
             .boxed()
     }
     fn budget(&self, tier: Tier) -> Budget {
-        Budget::new(tier.pick(2_400, 40_000), tier.pick(8, 16)).min_nontrivial(tier.pick(600, 10_000)).case_timeout(180)
+        Budget::new(tier.pick(1_200, 40_000), tier.pick(8, 16)).min_nontrivial(tier.pick(300, 10_000)).case_timeout(180)
     }
     fn rule(&self) -> String {
         "1-3 typed partition columns, 1-12 harness-written files in a hive layout with 6 directory spellings per value, layout noise, dir/glob/single-file location, \
@@ -1167,15 +1229,8 @@ impl Property for C27 {
         c.pred.as_ref()?;
         // the open defect: a directory spelled differently from the directory name DataFusion derives from the
         // literal, for a column of the prefix it really lists, in a table file carrying exactly those values
-        let run = c.model_prefix();
-        if run.is_empty() {
-            return None;
-        }
-        let laid = c.layout();
-        for l in laid.iter().filter(|l| l.in_table) {
-            if run.iter().all(|(col, lit, _)| l.values.get(*col) == Some(lit)) && run.iter().any(|(col, _, dir)| l.dirs.get(*col) != Some(dir)) {
-                return Some("prefix-alternate-spelling".into());
-            }
+        if c.alternate_spelling_under_prefix() {
+            return Some("prefix-alternate-spelling".into());
         }
         None
     }
@@ -1218,8 +1273,8 @@ impl Property for C27 {
         if c.single().is_none() && c.escaped_non_last_in_run() {
             r = r.label("eq-run:escaped-value-in-non-last-column");
         }
-        if c.single().is_none() && !c.model_prefix().is_empty() {
-            r = r.label(format!("listing-prefix-columns={}", c.model_prefix().len()));
+        if c.single().is_none() && c.model_prefix_len() > 0 {
+            r = r.label(format!("listing-prefix-columns={}", c.model_prefix_len()));
         }
         let mut kinds = BTreeSet::new();
         match &c.pred {
